@@ -98,6 +98,14 @@ CHECKS = {
          "Trusted: Lean kernel + standard axioms; pandas groupby(sort=True). Outside the model: path_string/val_to_num/val_from_meta "
          "value text, pandas categoricals for partition columns.",
          "Lean 4 proof + part-file correspondence and oracle", "§6 C08"),
+ "C14": ("Lean 4 theorems about base-path inference (analyse_paths, modelled on path segments): the inferred base is a prefix of every given "
+         "path, strictly shorter than each, and base ++ relative path reconstructs every path (also with an explicit root, or the call "
+         "is refused); merged rows are the concatenation in the given order and num_rows their sum; categorical labels are right "
+         "when dictionaries agree and a proved witness shows they are not otherwise (known finding, as C07). analyse_paths is tied "
+         "exhaustively (all lists of <=3 paths, depth<=3, 2-letter alphabet); the concatenation oracle runs on real files opened via "
+         "list, directory, glob and merge() in flat/hive/drill shapes, >=3 files taking the concurrent-footer path.",
+         "Trusted: Lean kernel + standard axioms. Outside the model: fsspec listing order, footer fetching, per-file decode.",
+         "Lean 4 proof + exhaustive correspondence of analyse_paths + concatenation oracle", "§6 C14"),
 }
 
 def main():
